@@ -209,19 +209,40 @@ static struct blk *blks;
 static int nblks, capblks;
 static long led_bad_free, led_double_free, led_null_free, led_allocs, led_frees;
 static int ledger_on;
+/* index of the blocks by start address (blocks are kept, poisoned, until the ledger is reset, so starts are unique) */
+static int *blk_ix; static size_t blk_ixcap;
+static void blk_ix_put (int i)
+{
+  size_t h;
+  if ((size_t) nblks * 2 + 2 >= blk_ixcap)
+    {
+      size_t j; int k;
+      blk_ixcap = blk_ixcap ? blk_ixcap * 2 : 4096;
+      while ((size_t) nblks * 2 + 2 >= blk_ixcap) blk_ixcap *= 2;
+      blk_ix = (int *) __real_realloc (blk_ix, sizeof (int) * blk_ixcap);
+      for (j = 0; j < blk_ixcap; j++) blk_ix[j] = -1;
+      for (k = 0; k < nblks; k++)
+	if (k != i) { h = ((size_t) blks[k].p >> 4) * 2654435761u % blk_ixcap; while (blk_ix[h] >= 0) h = (h + 1) % blk_ixcap; blk_ix[h] = k; }
+    }
+  h = ((size_t) blks[i].p >> 4) * 2654435761u % blk_ixcap;
+  while (blk_ix[h] >= 0) h = (h + 1) % blk_ixcap;
+  blk_ix[h] = i;
+}
 static void *pa_cb (int n)
 {
   char *p = (char *) __real_malloc (n > 0 ? n : 1);
   if (nblks == capblks) { capblks = capblks ? capblks * 2 : 1024; blks = (struct blk *) __real_realloc (blks, sizeof (struct blk) * capblks); }
   blks[nblks].p = p; blks[nblks].size = n; blks[nblks].live = 1; blks[nblks].freed_times = 0; blks[nblks].epoch = cur_epoch; nblks++;
+  blk_ix_put (nblks - 1);
   led_allocs++;
   return p;
 }
 static int blk_find (void *p)
 {
-  int i;
-  for (i = nblks - 1; i >= 0; i--) if (blks[i].p == (char *) p && blks[i].live) return i;
-  for (i = nblks - 1; i >= 0; i--) if (blks[i].p == (char *) p) return i;
+  size_t h;
+  if (blk_ixcap == 0) return -1;
+  for (h = ((size_t) p >> 4) * 2654435761u % blk_ixcap; blk_ix[h] >= 0; h = (h + 1) % blk_ixcap)
+    if (blks[blk_ix[h]].p == (char *) p) return blk_ix[h];
   return -1;
 }
 static void pf_cb (void *p)
@@ -240,6 +261,8 @@ static void pf_cb (void *p)
 static int blk_contains_live (void *p, size_t len)
 {
   int i;
+  i = blk_find (p);		/* the usual case: the start of a block */
+  if (i >= 0 && blks[i].live && (chk_epoch < 0 || blks[i].epoch == chk_epoch) && (char *) p + len <= blks[i].p + blks[i].size) return 1;
   for (i = 0; i < nblks; i++)
     if (blks[i].live && (chk_epoch < 0 || blks[i].epoch == chk_epoch) && (char *) p >= blks[i].p && (char *) p + len <= blks[i].p + blks[i].size) return 1;
   return 0;
@@ -248,7 +271,10 @@ static void ledger_reset (void)
 {
   int i;
   for (i = 0; i < nblks; i++) __real_free (blks[i].p);
-  nblks = 0; led_bad_free = led_double_free = led_null_free = led_allocs = led_frees = led_foreign_free = 0;
+  nblks = 0;
+  if (blk_ixcap > 65536) { __real_free (blk_ix); blk_ix = NULL; blk_ixcap = 0; }	/* one huge parse must not slow down all later ones */
+  { size_t j; for (j = 0; j < blk_ixcap; j++) blk_ix[j] = -1; }
+  led_bad_free = led_double_free = led_null_free = led_allocs = led_frees = led_foreign_free = 0;
 }
 static long ledger_live (void) { int i; long n = 0; for (i = 0; i < nblks; i++) n += blks[i].live; return n; }
 
@@ -461,7 +487,24 @@ static void ser (struct sb *b, struct yaep_tree_node *p, int *nterm)
       sb_add (b, ")");
       break;
     case YAEP_ALT:
-      sb_add (b, "{"); ser (b, p->val.alt.node, nterm); sb_add (b, "|"); ser (b, p->val.alt.next, nterm); sb_add (b, "}");
+      {
+	/* a list of alternatives can be very long: no recursion along it */
+	struct yaep_tree_node *a;
+	int depth = 0;
+	for (a = p; a != NULL && a->type == YAEP_ALT; a = a->val.alt.next)
+	  {
+	    if (a != p)
+	      {
+		for (i = 0; i < ser_n; i++) if (ser_seen[i] == a) break;
+		if (i < ser_n) { sprintf (buf, "#%d", i); sb_add (b, buf); a = NULL; break; }
+		if (ser_n == ser_cap) { ser_cap = ser_cap ? ser_cap * 2 : 4096; ser_seen = (struct yaep_tree_node **) __real_realloc (ser_seen, sizeof (void *) * ser_cap); }
+		ser_seen[ser_n++] = a;
+	      }
+	    sb_add (b, "{"); ser (b, a->val.alt.node, nterm); sb_add (b, "|"); depth++;
+	  }
+	if (a != NULL) ser (b, a, nterm); else if (depth > 0 && b->n > 0 && b->s[b->n - 1] == '|') sb_add (b, "NULL");
+	while (depth-- > 0) sb_add (b, "}");
+      }
       break;
     default: sb_add (b, "?BADTYPE");
     }
